@@ -11,6 +11,7 @@ pub mod c11;
 pub mod c12;
 pub mod c13;
 pub mod c14;
+pub mod mirirun;
 
 use crate::report::Report;
 
